@@ -250,21 +250,13 @@ func (c *Ctx) reachConds(b *ssa.BasicBlock) []string {
 		var alts []string
 		for _, p := range b.Preds {
 			var lits []string
-			if len(p.Instrs) > 0 {
-				if iff, ok := p.Instrs[len(p.Instrs)-1].(*ssa.If); ok {
-					s := c.Expr(iff.Cond)
-					if p.Succs[0] == b && p.Succs[1] != b {
-						lits = append(lits, canonGuard(true, s))
-					} else if p.Succs[1] == b && p.Succs[0] != b {
-						lits = append(lits, canonGuard(false, s))
-					}
-				}
-			}
-			for _, g := range c.guardStrs(p) {
+			// what holds on the edge p→b (a branch on a flag reads as the conditions the flag stands for)
+			for _, g := range edgeGuards(c, p, b) {
 				if !base[g] {
 					lits = append(lits, g)
 				}
 			}
+			lits = uniq(lits)
 			sort.Strings(lits)
 			alts = append(alts, "("+strings.Join(lits, " & ")+")")
 		}
